@@ -14,7 +14,11 @@ PROP = {'level': 'proof',
          '(U+7F, U+80, U+7FF, U+800, U+D7FF, U+E000, U+FFFF, U+10000, U+10FFFF) with at most 2 / 3 '
          'characters x every index and every index pair from 0..=len+2 plus usize::MAX (start > end '
          'included) x all 8 functions; plus 300 / 3000 seeded random strings of up to 8 / 13 random scalar '
-         'values with the same index sets.',
+         'values with the same index sets. A second seeded stream (28 / 280 strings, ~6 000 / 60 000 '
+         'requests): strings of 10..=60 random scalar values of all four encoded lengths (edge scalars and '
+         'continuation bytes 80/BF over-represented), each with 9 indices (char boundaries, positions inside '
+         'characters, late positions, len, len+1..3, and a huge one: usize::MAX, isize::MAX(+1), random >= '
+         '2^62) and all 81 index pairs.',
  'explanation': 'Theorems (Props/C03.lean) state model = std spec for every valid string and every index; '
                 'the transcript ties the model to the code (konst::string::*) and the spec to the real std '
                 '(str::get, is_char_boundary, indexing and split_at with panics caught).',
